@@ -385,3 +385,130 @@ def dtype_search(rng, budget, mode, prefix, methods=('nearest', 'linear', 'remap
                           SNIPPET_DTYPE % dict(params=json.dumps(params)),
                           dict(image_dtype=dti, weights_dtype=dtw, method=meth, folds=bool(folds), shape=[h, w], mode=mode)))
     return fails, n_eval, len(distinct)
+
+
+# ---------------------------------------------------------------------------
+# memory-layout independence: the same values in another memory layout must give
+# bit-identical results
+# ---------------------------------------------------------------------------
+LAYOUTS = ['C', 'F', 'transposed-view', 'strided-view', 'negative-strides', 'read-only', 'F-read-only']
+
+LAYOUT_CODE = '''
+def with_layout(A, kind):
+    import numpy as np
+    A = np.ascontiguousarray(A, dtype=float)
+    if kind == 'C':
+        B = A.copy()
+    elif kind in ('F', 'F-read-only'):
+        B = np.asfortranarray(A)
+    elif kind == 'transposed-view':
+        B = np.ascontiguousarray(A.T).T
+    elif kind == 'strided-view':
+        big = np.full((2 * A.shape[0] + 1, 3 * A.shape[1] + 2), -7.5)
+        big[1::2, 2::3] = A
+        B = big[1::2, 2::3]
+    elif kind == 'negative-strides':
+        B = np.ascontiguousarray(A[::-1, ::-1])[::-1, ::-1]
+    elif kind == 'read-only':
+        B = A.copy()
+    else:
+        raise ValueError(kind)
+    if kind.endswith('read-only'):
+        B.setflags(write=False)
+    assert B.shape == A.shape and np.array_equal(A, B)
+    return B
+'''
+exec(LAYOUT_CODE)       # defines with_layout()
+
+SNIPPET_LAYOUT = '''
+import json, sys, warnings
+import numpy as np
+warnings.simplefilter('ignore')
+''' + DTYPE_COMPUTE + LAYOUT_CODE + '''
+p = json.loads(%(params)r)
+cfg = p['cfg']; mode = p['mode']
+IM = np.array(p['IM']); W = None if p['W'] is None else np.array(p['W'])
+ref = compute(mode, IM.copy(), None if W is None else W.copy(), cfg)
+IMv = with_layout(IM, p['layout_image']); Wv = None if W is None else with_layout(W, p['layout_weights'])
+im0 = IMv.copy(); w0 = None if Wv is None else Wv.copy()
+try:
+    nat = compute(mode, IMv, Wv, cfg)
+except Exception as e:
+    print('layout independence FAILS:', p['layout_image'], 'image /', p['layout_weights'], 'weights raise', type(e).__name__, e); sys.exit(1)
+bad = [k for k in ref if not (np.asarray(nat[k]).shape == np.asarray(ref[k]).shape
+                               and np.array_equal(np.asarray(nat[k], float), np.asarray(ref[k], float), equal_nan=True))]
+if not np.array_equal(IMv, im0) or (Wv is not None and not np.array_equal(Wv, w0)): bad.append('argument modified')
+print('layout independence (%%s image, %%s weights, %%s)' %% (p['layout_image'], p['layout_weights'], mode),
+      'holds' if not bad else 'FAILS for ' + ', '.join(bad))
+sys.exit(0 if not bad else 1)
+'''
+
+
+def layout_search(rng, budget, mode, prefix, methods=('nearest', 'linear', 'remap')):
+    """Images / weights as C-contiguous, Fortran-contiguous, transposed view, strided view of a
+    larger array, negative-stride view and read-only arrays: every result must be bit-identical
+    to that of the C-contiguous copies (and the arguments left intact)."""
+    import json
+    import warnings
+    fails, n_eval, distinct = [], 0, set()
+    for it in range(budget):
+        meth = methods[rng.integers(len(methods))] if mode != 'rbasex' else 'linear'
+        lo = 12 if meth == 'remap' else 4
+        h, w = [int(v) for v in rng.integers(lo, lo + 12, 2)]
+        if h == w and rng.random() < 0.8:
+            w += 1 + int(rng.integers(4))                     # mostly non-square
+        k = rng.random()
+        if k < 0.35:
+            o = (int(rng.integers(h)), int(rng.integers(w)))
+        elif k < 0.55:
+            o = ORIGIN_STRINGS[rng.integers(len(ORIGIN_STRINGS))]
+        elif k < 0.8:
+            o = ([0, h - 1][rng.integers(2)], [0, w - 1][rng.integers(2)])              # corner: no folding
+        else:
+            o = (int(rng.integers(h)), [0, w - 1][rng.integers(2)])                     # left/right edge
+        row, col = resolve_origin((h, w), o)
+        rm = RMAX_KW[rng.integers(9)] if rng.random() < 0.7 else int(rng.integers(1, max(h, w)))
+        order = int(rng.integers(0, 5)) if rng.random() < 0.8 else int(rng.integers(0, 9))
+        odd = bool(rng.integers(2))
+        orders, odd_r = orders_of(order, odd)
+        sin = bool(rng.integers(2)) if mode != 'rbasex' else False
+        folds = (col not in (0, w - 1)) if odd_r else not (row in (0, h - 1) and col in (0, w - 1))
+        li = LAYOUTS[1 + rng.integers(len(LAYOUTS) - 1)]
+        has_w = rng.random() < 0.4
+        lw = LAYOUTS[rng.integers(len(LAYOUTS))] if has_w else None
+        IM = rng.normal(size=(h, w)) + 2
+        W = rng.uniform(0.2, 3, (h, w)) if has_w else None
+        cfg = dict(origin=o if isinstance(o, str) else [int(o[0]), int(o[1])], rmax=rm, order=order, odd=odd, use_sin=sin,
+                   method=meth, window=int([1, 1, 2, 3][rng.integers(4)]),
+                   out=['same', 'fold', 'unfold', 'full', 'full-unique'][rng.integers(5)])
+        n_eval += 1
+        distinct.add((mode, li, lw, meth if mode != 'rbasex' else 'rbasex', folds, sin, odd_r))
+        what = None
+        with warnings.catch_warnings(), np.errstate(all='ignore'):
+            warnings.simplefilter('ignore')
+            try:
+                ref = compute(mode, IM.copy(), None if W is None else W.copy(), cfg)
+            except Exception:     # noqa  (invalid request also in C order)
+                continue
+            IMv = with_layout(IM, li)
+            Wv = None if W is None else with_layout(W, lw)
+            try:
+                nat = compute(mode, IMv, Wv, cfg)
+                bad = [name for name in ref if not (np.asarray(nat[name]).shape == np.asarray(ref[name]).shape and
+                                                     np.array_equal(np.asarray(nat[name], float), np.asarray(ref[name], float),
+                                                                    equal_nan=True))]
+                if not np.array_equal(IMv, IM) or (Wv is not None and not np.array_equal(Wv, W)):
+                    bad.append('argument modified')
+                if bad:
+                    what = 'differs from the C-contiguous copy in ' + ', '.join(bad)
+            except Exception as e:     # noqa
+                what = 'exception %s: %s' % (type(e).__name__, str(e)[:100])
+        if what:
+            key = '%s:layout:image=%s:weights=%s:method=%s:%s' % (prefix, li, lw, meth if mode != 'rbasex' else 'rbasex',
+                                                                 'fold' if folds else 'nofold')
+            params = dict(cfg=cfg, mode=mode, layout_image=li, layout_weights=lw, IM=IM.tolist(), W=None if W is None else W.tolist())
+            fails.append((key, '%s image %dx%d, %s weights, origin %r, rmax %r, order %d, odd %s, %s, use_sin %s: %s'
+                          % (li, h, w, lw, o, rm, order, odd, meth if mode != 'rbasex' else 'rbasex out=%s' % cfg['out'], sin, what),
+                          SNIPPET_LAYOUT % dict(params=json.dumps(params)),
+                          dict(layout_image=li, layout_weights=lw, method=meth, folds=bool(folds), shape=[h, w], mode=mode)))
+    return fails, n_eval, len(distinct)
